@@ -78,7 +78,7 @@ CLAIMED["C09"] = (
     "both halves are non-empty for n >= 2, and the half sums/counts recombine to the whole. Tie: sample-size expression and "
     "structural anchors regenerated; random_splitter driven by a scripted generator (exact masks); average / average_split / "
     "BatchLoader / LoaderGroup averages on integer tomograms (numpy + 3 dask chunkings) compared voxel-wise with the exact rational "
-    "means computed in Coq; seeded reproducibility checked on the implementation. Generic poses / order 3 / n_set>1: numeric oracle. Loaders store their inputs and options only and task arrays are named by content (class-state / call facts): no stale or shared graphs.",
+    "means computed in Coq; the batch clause at full strength (mean of the concatenation = count-weighted mean of the per-tomogram means, any number of non-empty tomograms); seeded reproducibility checked on the implementation. Generic poses / order 3 / n_set>1: numeric oracle. Loaders store their inputs and options only and task arrays are named by content (class-state / call facts): no stale or shared graphs.",
     "regenerated anchors + Coq theorems (Q, induction, pigeonhole) + in-Coq correspondence")
 CLAIMED["C14"] = (
     "Theorems (Coq, Q/Z, every template side parity and every rational position): fragment start + output centre = pos/scale (the "
@@ -93,10 +93,10 @@ CLAIMED["C15"] = (
     "Theorems (Coq): binned length = floor(s/b), the kept prefix is the largest multiple of b, blocks tile it (every kept voxel "
     "belongs to exactly one block/offset, no block reaches the dropped remainder); for every b > 1 and scale != 0 the translated "
     "molecule satisfies b*c' + (b-1)/2 = c (same physical point) for single and batch loaders, b = 1 is a copy; voxel k / offset a of "
-    "the binned box is voxel b*k+a of the b-times larger original box. Tie: divmod, slice stop, tr and new scale regenerated from "
+    "the binned box is voxel b*k+a of the b-times larger original box; binning composes (binning(b1) then binning(b2) = binning(b1*b2): scale, positions, shapes, per-axis block sums for every signal); block-wise binning of a chunked image is right exactly for cuts that are multiples of b (refuted witness otherwise). Tie: divmod, slice stop, tr and new scale regenerated from "
     "bin_image / SubtomogramLoader.binning / BatchLoader.binning; bin_image on integer images of random shapes x b (numpy + dask "
     "chunkings) compared exactly inside Coq; binning() scale/positions/ids compared inside Coq; binned.load == block-sum of the "
-    "larger original load (exact integers, numpy/dask, compute flags, single/batch) by metamorphic oracle.",
+    "larger original load (exact integers, numpy/dask, compute flags, single/batch) and binning(b1).binning(b2) == binning(b1*b2) on the real loaders by metamorphic oracle.",
     "regenerated anchors + Coq theorems (lia/field) + in-Coq correspondence")
 CLAIMED["C08"] = (
     "Theorems (Coq): the index grid of all three get_indices copies equals the FFT index order for every size (odd and even); "
@@ -111,7 +111,7 @@ CLAIMED["C08"] = (
 CLAIMED["C16"] = (
     "Theorems (Coq): the frequency axis (arange bounds from source + ifftshift) has exactly d entries and is the FFT index order "
     "for every d (odd/even), in both implementations, which translate to identical definitions; the Butterworth weight is in (0,1], "
-    "equals 1 at zero frequency and is even in every index (zero phase / real output given the DFT laws); output shape = input "
+    "equals 1 at zero frequency and is even in every index (zero phase / real output given the DFT laws), is literally 1/(1+(|f|/cutoff)^(2 order)) with |f| in cycles per pixel, is 1/2 at |f| = cutoff and never increases with |f|; output shape = input "
     "shape for every parity once irfftn receives the shape (refuted witness for the pre-fix d-1); identity guard <=> cutoff <= 0 or "
     "cutoff^2 >= ndim/4. Tie: arange bounds, rfft limit, guard and irfftn call regenerated from both copies; weights (real and "
     "complex layouts) compared with exact rational Butterworth gains and output shapes / identity for 105+ shapes x 3 cutoffs "
